@@ -6,6 +6,8 @@ package sym
 import (
 	"fmt"
 	"go/types"
+
+	"golang.org/x/tools/go/ssa"
 )
 
 var zzIntrinsics = map[string]externalFn{
@@ -85,10 +87,8 @@ var zzIntrinsics = map[string]externalFn{
 			v = it.v
 		}
 		switch x := v.(type) {
-		case symStr:
-			i.run.notes[a[0].(string)] = i.L.evalStr(x.Str, i.currentModel(), map[int]uint64{})
-		case symInt, symBool:
-			i.run.notes[a[0].(string)] = "<symbolic>"
+		case symStr, symInt, symBool:
+			i.run.notes[a[0].(string)] = x
 		default:
 			i.run.notes[a[0].(string)] = describeValue(v)
 		}
@@ -99,6 +99,12 @@ var zzIntrinsics = map[string]externalFn{
 		return fr.i.concStr(a[0])
 	},
 	"zzIsSymbolic": func(fr *frame, a []value) value { return true },
+	"zzBound": func(fr *frame, a []value) value {
+		if fr.i.w.Cfg.Tier == "thorough" {
+			return a[2]
+		}
+		return a[1]
+	},
 	"zzCountByte": func(fr *frame, a []value) value {
 		i := fr.i
 		c := asInt64(a[1])
@@ -123,11 +129,11 @@ func (i *interpreter) eqnilVZero(t types.Type, v value) value {
 }
 
 // nativeBridge calls registered native functions for concrete arguments.
-func (i *interpreter) nativeBridge(fr *frame, fn interface{ String() string }, name string, args []value) (value, bool) {
+func (i *interpreter) nativeBridge(fr *frame, fn *ssa.Function, name string, args []value) (value, bool) {
 	if f, ok := bridges[name]; ok {
 		return f(fr, args), true
 	}
-	return nil, false
+	return i.callBridge(fr, fn, name, args)
 }
 
 var bridges = map[string]externalFn{}
